@@ -409,6 +409,7 @@ func c33(r *engine.Run) {
 	cov["messages_in_alphabet"] = len(names)
 	cov["publisher_chain_blocks"] = N
 	cov["per_world"] = perWorld
+	cov["request_fan_out_through_the_real_daemon"] = c33Fanout(r, outcomes)
 	cov["multi_transaction_blocks_outside_arbitration_order"] = unsorted
 	r.Assumptions = append(r.Assumptions, "chain of N blocks, one peer address; network transport and message framing are C22's subject; periodic re-request timer of the daemon is not modelled (requests observed on advance and on announcement)")
 	r.Finish(cov)
